@@ -123,7 +123,9 @@ func (c *vnFakeConn) Close() error {
 	c.poke()
 	return nil
 }
-func (c *vnFakeConn) LocalAddr() net.Addr { return &net.UDPAddr{IP: net.IPv4(127, 0, 0, 1), Port: 40000} }
+func (c *vnFakeConn) LocalAddr() net.Addr {
+	return &net.UDPAddr{IP: net.IPv4(127, 0, 0, 1), Port: 40000}
+}
 func (c *vnFakeConn) SetDeadline(t time.Time) error      { return c.SetReadDeadline(t) }
 func (c *vnFakeConn) SetWriteDeadline(t time.Time) error { return nil }
 func (c *vnFakeConn) SetReadDeadline(t time.Time) error {
